@@ -1,0 +1,19 @@
+//go:build verif
+
+// Contracts for the deductive verifier in /verif (gobv). Comment-only: this file contains no code and
+// is compiled only with -tags verif. Grammar: /verif/DESIGN.md, Appendix A.
+
+package bigbuff
+
+//@ func DefaultCleaner
+//@   props C03 C04
+//@   nopanic always : true
+//@   ensures zero : some(j, 0, len(offsets), offsets[j] == 0) ==> ret == 0
+//@   ensures inactive : all(j, 0, len(offsets), offsets[j] < 0) ==> ret == 0
+//@   ensures upper : !some(j, 0, len(offsets), offsets[j] == 0) && some(j, 0, len(offsets), offsets[j] > 0) ==> ret <= size && all(j, 0, len(offsets), offsets[j] > 0 ==> ret <= offsets[j])
+//@   ensures attained : !some(j, 0, len(offsets), offsets[j] == 0) && some(j, 0, len(offsets), offsets[j] > 0) ==> ret == size || some(j, 0, len(offsets), offsets[j] > 0 && ret == offsets[j])
+//@   loop 0 invariant idx : -1 <= rangeindex && rangeindex < len(offsets) || (rangeindex == -1 && len(offsets) == 0)
+//@   loop 0 invariant nozero : all(j, 0, rangeindex+1, offsets[j] != 0)
+//@   loop 0 invariant act : active <==> some(j, 0, rangeindex+1, offsets[j] > 0)
+//@   loop 0 invariant low : lowest <= size && all(j, 0, rangeindex+1, offsets[j] > 0 ==> lowest <= offsets[j])
+//@   loop 0 invariant att : lowest == size || some(j, 0, rangeindex+1, offsets[j] > 0 && lowest == offsets[j])
